@@ -202,8 +202,8 @@ func init() {
 		return ""
 	}
 	register(&core.Property{
-		ID: "C06",
-		Rule: "inputs: every prefix of every corpus program (thorough: all; quick: every 7th), uniform random bytes, alphabet-weighted token soup, corpus mutations (truncate, delete, duplicate, splice, one byte replaced by each of " + fmt.Sprint(len(interesting)) + " interesting bytes), bracket nesting of 12 kinds to depth 5000 (balanced and unbalanced), literals/names/operator runs up to 10^5 characters, and valid-statements + erroneous-tail inputs through processInput. non-trivial = parsed to >= 1 statement or rejected with a span; distinct by input text. Termination is decided as bounded progress: lexer iterations <= 4*len+64 and TLexer.Next calls <= 1000*(len+16) per parse (measured maxima are in measured_maxima).",
+		ID:          "C06",
+		Rule:        "inputs: every prefix of every corpus program (thorough: all; quick: every 7th), uniform random bytes, alphabet-weighted token soup, corpus mutations (truncate, delete, duplicate, splice, one byte replaced by each of " + fmt.Sprint(len(interesting)) + " interesting bytes), bracket nesting of 12 kinds to depth 5000 (balanced and unbalanced), literals/names/operator runs up to 10^5 characters, and valid-statements + erroneous-tail inputs through processInput. non-trivial = parsed to >= 1 statement or rejected with a span; distinct by input text. Termination is decided as bounded progress: lexer iterations <= 4*len+64 and TLexer.Next calls <= 1000*(len+16) per parse (measured maxima are in measured_maxima).",
 		Assumptions: []string{"nesting beyond depth 5000 is a Go stack-size resource limit and out of reach", "the error display is accepted when it starts with the message and ends with a caret line; messages that quote a multi-line token may span more than three lines"},
 		Families: []core.Family{
 			{Name: "prefix", Count: func(t string) int { return tierN(t, (prefixTotal()+6)/7, prefixTotal()) }, Run: func(ctx *core.Ctx, idx int) core.Result {
